@@ -93,7 +93,8 @@ def _run_one(args):
     try:
         compile_ok = True
         for rel, src in overlay.items():
-            compile(src, rel, 'exec')
+            if src is not None and rel.endswith('.py'):
+                compile(src, rel, 'exec')
     except SyntaxError as e:
         return (spec['name'], 'broken-spec', 'edit does not compile: %s' % e)
     try:
